@@ -1,0 +1,102 @@
+//go:build verif
+
+package chacha20poly1305
+
+// Contracts for govc (/verif). Comments only.
+//
+// The portable AEAD construction of RFC 8439 section 2.8, relative to the
+// ChaCha20 instance created for (key, nonce) (keystream spec.ks, see
+// chacha20/verif_contracts.go) and to the Poly1305 MAC as an uninterpreted
+// function of its input stream (ghost stream of the MAC object).
+
+//@ func sliceForAppend
+//@ props C01 C02
+//@ requires 0 <= n && len(in) + n <= 281474976710656
+//@ modifies in[len(in):len(in)+n]
+//@ ensures len(head) == len(in) + n && len(tail) == n && sameobj(tail, head) && off(tail) == off(head) + len(in)
+//@ ensures implies(cap(in) >= len(in) + n, sameobj(head, in) && off(head) == off(in))
+//@ ensures implies(cap(in) < len(in) + n, newobj(head))
+//@ ensures forall(i, 0, len(in), head[i] == old(in[i]))
+//@ ensures sameoutside(in[len(in):len(in)])
+
+// the MAC input is padded with zeros to a multiple of 16
+//@ func writeWithPadding
+//@ props C01 C02
+//@ nonnil p
+//@ requires ghost(p, hlen) >= 0
+//@ modifies ghost(p, hlen)
+//@ modifies ghost(p, hbuf)
+//@ let L = ghost(p, hlen)
+//@ let padded = len(b) + (16 - len(b) % 16) % 16
+//@ ensures ghost(p, hlen) == L + padded
+//@ ensures forall(q, L, L + len(b), ghost(p, hbuf)[q] == b[q - L])
+//@ ensures forall(q, L + len(b), L + padded, ghost(p, hbuf)[q] == 0)
+//@ ensures forall(q, 0, L, ghost(p, hbuf)[q] == old(ghost(p, hbuf)[q]))
+
+//@ func writeUint64
+//@ props C01 C02
+//@ nonnil p
+//@ requires n >= 0 && ghost(p, hlen) >= 0
+//@ modifies ghost(p, hlen)
+//@ modifies ghost(p, hbuf)
+//@ let L = ghost(p, hlen)
+//@ ensures ghost(p, hlen) == L + 8
+//@ ensures forall(q, 0, 8, ghost(p, hbuf)[L + q] == (n / spec.pow2f(8 * q)) % 256)
+//@ ensures forall(q, 0, L, ghost(p, hbuf)[q] == old(ghost(p, hbuf)[q]))
+
+// stream position of a chacha20.Cipher (as in chacha20/verif_contracts.go)
+//@ pred pos(s) = 64 * ite(s.overflow, 4294967296, s.counter) - s.len
+
+// padded length of n bytes in the MAC input
+//@ pred p16(n) = n + (16 - n % 16) % 16
+
+// sealGeneric: ret = dst | ciphertext | tag with ciphertext[i] = plaintext[i] xor keystream byte 64+i (block
+// counter 1 onwards) of the ChaCha20 instance for (key, nonce); the Poly1305 key is keystream bytes 0..31
+// (block 0); the MAC input is AD | pad16 | ciphertext | pad16 | len(AD) | len(plaintext), both lengths as
+// 8 little-endian bytes (RFC 8439 section 2.8)
+//@ pred inplace(dst, n) = cap(dst) >= len(dst) + n
+//@ pred inexact(dst, n, x) = inplace(dst, n) && len(x) > 0 && n > 0 && sameobj(dst, x) && off(dst) + len(dst) != off(x) && off(dst) + len(dst) < off(x) + len(x) && off(x) < off(dst) + len(dst) + n
+//@ pred anyov(dst, n, x) = inplace(dst, n) && len(x) > 0 && n > 0 && sameobj(dst, x) && off(dst) + len(dst) < off(x) + len(x) && off(x) < off(dst) + len(dst) + n
+
+//@ func (*chacha20poly1305).sealGeneric
+//@ props C01
+//@ reindex
+//@ requires len(nonce) == 12 && len(plaintext) <= 274877906880 && len(dst) + len(plaintext) + 16 <= 281474976710656
+//@ panics_when inexact(dst, len(plaintext) + 16, plaintext) || anyov(dst, len(plaintext) + 16, additionalData)
+//@ modifies heap
+//@ ensures len(result) == len(dst) + len(plaintext) + 16 && forall(i, 0, len(dst), result[i] == old(dst[i]))
+//@ mark CT "p := poly1305.New(&polyKey)"
+//@ check_at "p := poly1305.New(&polyKey)" pos(s) == 64 + len(plaintext) && forall(i, 0, len(plaintext), ciphertext[i] == old(plaintext[i]) ^ spec.ks(s, 64 + i))
+//@ check_at "p := poly1305.New(&polyKey)" forall(i, 0, 16, polyKey[i] == spec.ks(s, i) && polyKey[16+i] == spec.ks(s, 16 + i))
+//@ check_at "p.Sum(tag[:0])" ghost(p, hlen) == p16(len(additionalData)) + p16(len(plaintext)) + 16
+//@ check_at "p.Sum(tag[:0])" forall(q, 0, len(additionalData), ghost(p, hbuf)[q] == additionalData[q]) && forall(q, len(additionalData), p16(len(additionalData)), ghost(p, hbuf)[q] == 0)
+//@ check_at "p.Sum(tag[:0])" forall(q, 0, len(plaintext), ghost(p, hbuf)[p16(len(additionalData)) + q] == ciphertext[q]) && forall(q, len(plaintext), p16(len(plaintext)), ghost(p, hbuf)[p16(len(additionalData)) + q] == 0)
+//@ check_at "p.Sum(tag[:0])" forall(q, 0, 8, ghost(p, hbuf)[p16(len(additionalData)) + p16(len(plaintext)) + q] == (len(additionalData) / spec.pow2f(8 * q)) % 256)
+//@ check_at "p.Sum(tag[:0])" forall(q, 0, 8, ghost(p, hbuf)[p16(len(additionalData)) + p16(len(plaintext)) + 8 + q] == (len(plaintext) / spec.pow2f(8 * q)) % 256)
+//@ check_at "return ret" forall(i, 0, len(plaintext), ciphertext[i] == at(CT, ciphertext[i]))
+//@ canary ensures len(result) == len(dst)
+
+// openGeneric: the tag is verified over AD | pad16 | ciphertext | pad16 | len(AD) | len(ciphertext) before
+// anything is decrypted; on failure the output area is zeroed and nil, errOpen is returned; on success
+// ret = dst | plaintext with plaintext[i] = ciphertext[i] xor keystream byte 64+i
+//@ func (*chacha20poly1305).openGeneric
+//@ props C01 C02
+//@ reindex
+//@ assume_global errOpen != nil
+//@ requires len(nonce) == 12 && len(ciphertext) >= 16 && len(ciphertext) <= 274877906896 && len(dst) + len(ciphertext) <= 281474976710656
+//@ panics_when inexact(dst, len(ciphertext) - 16, ciphertext[:len(ciphertext)-16]) || anyov(dst, len(ciphertext) - 16, additionalData)
+//@ modifies heap
+//@ let N = len(ciphertext) - 16
+//@ ensures implies(result1 == nil, len(result0) == len(dst) + N && forall(i, 0, len(dst), result0[i] == old(dst[i])))
+//@ ensures implies(result1 != nil, result0 == nil)
+// on failure no plaintext (and nothing else) is left in the output area
+//@ ensures implies(result1 != nil && inplace(dst, N), forall(i, 0, N, dst[0:len(dst)+N][len(dst) + i] == 0))
+//@ check_at "ret, out := sliceForAppend(dst, len(ciphertext))" ghost(p, hlen) == p16(len(additionalData)) + p16(N) + 16 && pos(s) == 64
+//@ check_at "ret, out := sliceForAppend(dst, len(ciphertext))" forall(q, 0, len(additionalData), ghost(p, hbuf)[q] == additionalData[q]) && forall(q, len(additionalData), p16(len(additionalData)), ghost(p, hbuf)[q] == 0)
+//@ check_at "ret, out := sliceForAppend(dst, len(ciphertext))" forall(q, 0, N, ghost(p, hbuf)[p16(len(additionalData)) + q] == ciphertext[q]) && forall(q, N, p16(N), ghost(p, hbuf)[p16(len(additionalData)) + q] == 0)
+//@ check_at "ret, out := sliceForAppend(dst, len(ciphertext))" forall(q, 0, 8, ghost(p, hbuf)[p16(len(additionalData)) + p16(N) + q] == (len(additionalData) / spec.pow2f(8 * q)) % 256)
+//@ check_at "ret, out := sliceForAppend(dst, len(ciphertext))" forall(q, 0, 8, ghost(p, hbuf)[p16(len(additionalData)) + p16(N) + 8 + q] == (N / spec.pow2f(8 * q)) % 256)
+//@ loop 1 invariant -1 <= rangeindex && rangeindex < len(out) && forall(k, 0, rangeindex + 1, out[k] == 0)
+//@ mark PRE "if !p.Verify(tag) {"
+//@ check_at "return ret, nil" forall(i, 0, N, out[i] == at(PRE, ciphertext[i]) ^ spec.ks(s, 64 + i))
+//@ canary ensures result1 == nil
